@@ -22,4 +22,5 @@ PROPERTY RoundTrip
 PROPERTY NothingInProgressAfterLoad
 PROPERTY RepairIsLegal
 PROPERTY LoadedLikeFresh
+PROPERTY ReportsToOwnListeners
 CHECK_DEADLOCK FALSE
